@@ -419,9 +419,10 @@ def run_property(prop_id, tier, seed, only_clause=None, scale=1.0, procs=None):
         with open(os.path.join(VERIF_DIR, "evidence", "%s.json" % prop_id), "w") as f:
             json.dump(evidence, f, indent=1, default=_json_default)
 
-    for key, n in known_hits.items():
-        print("KNOWN-FINDING: property=%s %s (hit %d times, excluded from the search)"
-              % (prop_id, known_listed.get(key, key), n))
+    if only_clause is None:
+        for key, text in known_listed.items():
+            print("KNOWN-FINDING: property=%s %s [key=%s; met %d times in this run, each "
+                  "excluded from the search]" % (prop_id, text, key, known_hits.get(key, 0)))
     for clause_name, path, msg in violations:
         print("  clause %s: %s" % (clause_name, msg[:600]))
         print("VIOLATION property=%s replay=%s" % (prop_id, path))
